@@ -940,8 +940,6 @@ func (fc *FnCtx) mapDelete(mt *types.Map, m, k Term) {
 func (fc *FnCtx) doRange(x *ssa.Range) {
 	u := fc.eng.U
 	me := &mapEnum{}
-	fc.fresh++
-	id := fc.fresh
 	me.iter = fmt.Sprintf("iter_%s", x.Name())
 	fc.stateVar(me.iter, SInt, false)
 	switch xt := x.X.Type().Underlying().(type) {
@@ -955,14 +953,12 @@ func (fc *FnCtx) doRange(x *ssa.Range) {
 		fc.assume(Eq(me.dom, Select(fc.lookup(dom), m)))
 		fc.assume(Eq(me.val, Select(fc.lookup(val), m)))
 		me.n = fc.freshConst("rn", SInt)
-		fc.assume(Eq(me.n, Select(fc.lookup(ln), m)))
-		me.ek = fmt.Sprintf("ek!%d", id)
-		me.eidx = fmt.Sprintf("eidx!%d", id)
-		fc.decls = append(fc.decls, fmt.Sprintf("(declare-fun %s (Int) %s)", me.ek, ks), fmt.Sprintf("(declare-fun %s (%s) Int)", me.eidx, ks))
+		fc.assume(Eq(me.n, T(SInt, "(ite (= %s 0) 0 %s)", m.S, Select(fc.lookup(ln), m).S)))
+		me.ek, me.eidx = fc.eng.enumFuncs(ks)
 		fc.assume(T(SBool, "(>= %s 0)", me.n.S))
-		fc.assume(T(SBool, "(forall ((i Int)) (! (=> (and (<= 0 i) (< i %[1]s)) (and (select %[2]s (%[3]s i)) (= (%[4]s (%[3]s i)) i))) :pattern ((%[3]s i))))", me.n.S, me.dom.S, me.ek, me.eidx))
-		fc.assume(T(SBool, "(forall ((k %[5]s)) (! (=> (select %[2]s k) (and (<= 0 (%[4]s k)) (< (%[4]s k) %[1]s) (= (%[3]s (%[4]s k)) k))) :pattern ((select %[2]s k)) :pattern ((%[4]s k))))", me.n.S, me.dom.S, me.ek, me.eidx, ks))
-		fc.assumeNote("map iteration visits exactly the keys present when the loop starts (the loop body does not insert into the map it ranges over)")
+		fc.assume(T(SBool, "(forall ((i Int)) (! (=> (and (<= 0 i) (< i %[1]s)) (and (select %[2]s (%[3]s %[2]s i)) (= (%[4]s %[2]s (%[3]s %[2]s i)) i))) :pattern ((%[3]s %[2]s i))))", me.n.S, me.dom.S, me.ek, me.eidx))
+		fc.assume(T(SBool, "(forall ((k %[5]s)) (! (=> (select %[2]s k) (and (<= 0 (%[4]s %[2]s k)) (< (%[4]s %[2]s k) %[1]s) (= (%[3]s %[2]s (%[4]s %[2]s k)) k))) :pattern ((select %[2]s k)) :pattern ((%[4]s %[2]s k))))", me.n.S, me.dom.S, me.ek, me.eidx, ks))
+		fc.assumeNote("map iteration visits exactly the keys present when the loop starts, each once, in an arbitrary but (per map state) fixed order; the loop body does not insert into the map it ranges over")
 	default: // string
 		me.isString = true
 		me.str = fc.term(x.X)
@@ -992,7 +988,7 @@ func (fc *FnCtx) doNext(x *ssa.Next) {
 	}
 	okT := T(SBool, "(< %s %s)", pos.S, me.n.S)
 	k := fc.freshConst("rk", u.SortOf(me.keyT))
-	fc.assume(T(SBool, "(= %s (%s %s))", k.S, me.ek, pos.S))
+	fc.assume(T(SBool, "(= %s (%s %s %s))", k.S, me.ek, me.dom.S, pos.S))
 	v := fc.freshConst("rv", u.SortOf(me.valT))
 	fc.assume(Eq(v, Select(me.val, k)))
 	fc.assume(Implies(okT, fc.typeFacts(me.valT, v, 2)))
